@@ -26,6 +26,26 @@ enum
 static int cxx2c_thrown;
 #endif
 
+/* ---- library models used by the PyImath extraction (DESIGN 3.2): ownership / reference counts are dropped ---- */
+struct cxx2c_shared_array_ulong { unsigned long *px; };   /* boost::shared_array<size_t> */
+struct cxx2c_any { void *p; };                            /* boost::any (opaque handle) */
+static inline unsigned long *cxx2c_sa_index (struct cxx2c_shared_array_ulong *a, long i) { return &a->px[i]; }
+static inline unsigned long *cxx2c_sa_get (struct cxx2c_shared_array_ulong *a) { return a->px; }
+#define CXX2C_PyExc_IndexError 1
+#define CXX2C_PyExc_TypeError 2
+#ifndef CXX2C_PYERR_DEFINED
+#define CXX2C_PYERR_DEFINED
+static int cxx2c_pyerr;
+#endif
+static inline void cxx2c_PyErr_SetString (int kind, const char *msg) { (void) msg; cxx2c_pyerr = kind; }
+/* boost::python::throw_error_already_set(): throws error_already_set */
+#define cxx2c_throw_error_already_set() (cxx2c_thrown = CXX2C_E_boost_python_error_already_set)
+#ifdef VF_NATIVE
+#define cxx2c_assert_fail(e, f, l, fn) ((void) 0)
+#else
+#define cxx2c_assert_fail(e, f, l, fn) __CPROVER_assert (0, "assert() in the extracted code")
+#endif
+
 /* ---- arithmetic on floating element types: the one place its meaning is chosen ---- */
 #ifdef CXX2C_ABS_ARITH
 /* mode ABS: + - * / are uninterpreted (congruence only) */
